@@ -9,6 +9,7 @@ mod tc;
 use egv::targets::MapTarget;
 use egv::util::*;
 use egv::*;
+use embedded_graphics::primitives::Rectangle;
 use embedded_graphics::{
     mono_font::MonoFont,
     pixelcolor::Gray8,
@@ -141,8 +142,32 @@ fn record_layout(rec: &mut Rec, font: &MonoFont, lay: &Layout) -> bool {
             chains.push(json!({"k": k, "ret1": d1.ret, "map1": d1.map, "at2": pt_json(at2), "ret2": d2.ret, "map2": d2.map}));
         }
     }
+    // the same Text on targets that report a small bounding box (what was written is logged wherever it falls)
+    let mut small = vec![];
+    if lay.text.len() <= 12 {
+        let s = string_of(&lay.text);
+        let ch = font.character_size.height as i32;
+        for (k, b) in [
+            Rectangle::new(pos + Point::new(-3, -ch), Size::new(9, (ch + 2) as u32)),
+            Rectangle::new(pos + Point::new(2, -2 * ch - 40), Size::new(30, 3)),
+            Rectangle::new(pos + Point::new(-40, 0), Size::new(20, 1)),
+            Rectangle::new(Point::new(0, 0), Size::new(0, 0)),
+        ]
+        .iter()
+        .enumerate()
+        {
+            if (k + lay.text.len() + lay.pos.0.unsigned_abs() as usize) % 2 == 0 {
+                continue;
+            }
+            let t = Text::with_text_style(&s, pos, lay.sty.build(font), ts);
+            let mut target = MapTarget::<Gray8>::with_box(*b);
+            let ret = t.draw(&mut target).unwrap();
+            small.push(json!({"box": rect_json(b), "ret": pt_json(ret), "map": raster(&target.map)}));
+        }
+    }
     let mut f = lay.fields();
     let o = f.as_object_mut().unwrap();
+    o.insert("small".into(), json!(small));
     o.remove("chains");
     o.insert("sty".into(), json!({"tc": lay.sty.tc, "bg": lay.sty.bg, "ulm": lay.sty.ul.0, "ulc": lay.sty.ul.1,
                                   "stm": lay.sty.st.0, "stc": lay.sty.st.1}));
